@@ -1386,6 +1386,16 @@ class Interpreter(BaseInterpreter[TContext, TEvent]):
                         src=invocation.id,
                     )
                 )
+                # 🚨 Like a failed callable service: with no `onError` declared
+                #    the failure is unhandled and fails this machine too (the
+                #    run loop does it once it has processed the event).
+                unhandled = not self._has_error_handler(invocation)
+                if unhandled:
+                    try:
+                        error_event.unhandled_failure = failure
+                    except AttributeError:  # an unstamped, plain DoneEvent
+                        unhandled = False
+                        self._fail(failure)
                 await self.send(error_event)
                 for plugin in self._plugins:
                     plugin.on_service_error(self, invocation, failure)
